@@ -686,13 +686,6 @@ class StateEngine(object):
                         {"StateMachineArn": state_machine_arn}
                     )
 
-                """
-                Tidy up self.branch_metadata for current execution_arn.
-                If ExecutionFailed we need to check for outstanding terminated
-                branch messages subsequently arriving.
-                """
-                if execution_arn in self.branch_metadata:
-                    self.check_pending_results(execution_arn)
             else:
                 opentracing.tracer.active_span.set_tag("status", "SUCCEEDED")
                 execution_detail["status"] = "SUCCEEDED"
@@ -730,6 +723,16 @@ class StateEngine(object):
         )
 
         self.broadcast_notification(execution_arn, execution_detail, context)
+
+        """
+        Tidy up self.branch_metadata for current execution_arn.
+        If ExecutionFailed we need to check for outstanding terminated
+        branch messages subsequently arriving. This acknowledges the held
+        Branch/Iterator events, so we do it only after the terminal record
+        and notification have been issued.
+        """
+        if execution_failed and execution_arn in self.branch_metadata:
+            self.check_pending_results(execution_arn)
 
     def update_execution_history(
             self, state_machine, execution_arn, update_type, details
@@ -3293,17 +3296,20 @@ class StateEngine(object):
                 if error_type:
                     handle_error(state, error_type, error_message)
 
+            """
+            End the execution (or the enclosing Branch/Iterator) *before*
+            acknowledging the events, so that the terminal record and
+            notification have been issued if we fail before the acknowledgement.
+            event_ids still references the list after handle_terminal_state
+            deletes the Parallel or Map branch results for the current execution.
+            """
+            if state.get("End"):
+                handle_terminal_state(state_type, event)
+
             # Acknowledge the events for each branch's terminal state
             #print("Result - event_ids:")
             #print(event_ids)
             self.acknowledge_event_list(event_ids)
-
-            """
-            Need to do this *after* acknowledging the events as it deletes the
-            Parallel or Map branch results for the current execution.
-            """
-            if state.get("End"):
-                handle_terminal_state(state_type, event)
 
 
         """
